@@ -442,4 +442,42 @@ pub mod props {
         assert(s.take(s.len() as int) =~= s);
     }
 //@@ end
+
+//@@ lemma
+//@@ unit lemma.C02.cluster_is_its_flags_one_by_one tags=C02
+    /// C02 "`-abc` versus `-a -b -c` for flags ... are interchangeable (a cluster may end in a short argument with its value
+    /// attached)": what disambiguate_short is proved to append for a cluster of pure flags is, item by item, what it appends for the
+    /// one-letter words `-a`, `-b`, `-c` (same name, no attached value; only the remembered original text differs); and a cluster that
+    /// ends in an argument name appends that name marked "value attached" followed by exactly the rest of the word as its value
+    pub proof fn lemma_c02_cluster(new: Seq<Arg>, r: Option<Message>, base: int, short: String, fl: Seq<char>, ar: Seq<char>, os: OsString, j: int,
+                                   one: Seq<Arg>, short1: String, os1: OsString, i: int)
+        requires
+            short@.len() >= 2, 0 <= j <= short@.len(),
+            cluster_items(new, r, base, short@, short, fl, ar, os, j),
+            forall|k: int| 0 <= k < j ==> pure_flag(#[trigger] short@[k], fl, ar),
+            0 <= i < j,
+            // every letter of the cluster is a declared name (otherwise the whole word is kept as a positional, by design)
+            j == short@.len() || lists(fl, short@[j]) || lists(ar, short@[j]),
+            short1@ == seq![short@[i]],
+            cluster_items(one, None, base + i, short1@, short1, fl, ar, os1, 0),
+        ensures
+            one.len() == 1 && new.len() > i, // #one_item_per_flag
+            new[i] matches Arg::Short(c, adj, _) && one[0] matches Arg::Short(c1, adj1, _) && c == c1 && adj == adj1 && !adj, // #same_item_as_the_separate_word
+            (j < short@.len() && !lists(fl, short@[j]) && lists(ar, short@[j]) && j + 1 < short@.len())
+                ==> (new[j] matches Arg::Short(c, adj, _) && c == short@[j] && adj) && new[j + 1] == Arg::Word(os_of_chars(short@.skip(j + 1))), // #trailing_argument_takes_the_rest_as_its_value
+    {
+        let n = short@.len() as int;
+        assert(short1@.len() == 1 && short1@[0] == short@[i]);
+        assert(one == seq![Arg::Short(short1@[0], false, os1)]);
+        assert(one[0] == Arg::Short(short@[i], false, os1));
+        if j == n {
+            assert(flag_run(new, short@, n, os));
+        } else if !lists(fl, short@[j]) && lists(ar, short@[j]) {
+            assert(flag_run(new, short@, j, os));
+        } else {
+            assert(lists(fl, short@[j]));
+            assert(flag_run(new, short@, j, os));
+        }
+    }
+//@@ end
 }
